@@ -115,3 +115,93 @@ Proof.
 Qed.
 Example ex_pure_nash : pure_nash_brute (T:=Q) [([2; 2]%nat, [3; 0; 0; 2]%Q); ([2; 2]%nat, [2; 0; 0; 3]%Q)] 0%Q = [[0; 0]; [1; 1]]%nat.
 Proof. vm_compute. reflexivity. Qed.
+
+(* ================= completeness of support enumeration (Proofs6.v, Proofs7.v) =================
+   sinc s: s strictly increasing;  sys_sol P own opp k z: z_0..z_{k-1} (on opp) and the value z_k solve the
+   indifference system of _indiff_mixed_action;  sys_unique: that system has at most one solution (non-singular);
+   sys_solved: the certified Gauss-Jordan solver does not report "singular" on it (its completeness is not proved
+   in Base/Gauss.v; the analogue for the code is LAPACK gesv returning r = 0). *)
+From Coq Require Import Lqa Lia.
+From QE Require Import C05.Proofs6 C05.Proofs7.
+
+(* every Nash equilibrium (x, y) whose supports s0, s1 have the same size k and whose two indifference systems are
+   non-singular is yielded by the enumeration *)
+Theorem C05_support_enum_complete : forall (m n : nat) (A Bt : list (list Q)) (x y : nat -> Q) (s0 s1 : list nat) (k : nat),
+  is_nash_fn m n (Af A) (Bf Bt) x y ->
+  sinc s0 -> sinc s1 -> length s0 = k -> length s1 = k ->
+  (forall i, In i s0 <-> (i < m)%nat /\ (0 < x i)%Q) -> (forall j, In j s1 <-> (j < n)%nat /\ (0 < y j)%Q) ->
+  sys_solved A s0 s1 -> sys_unique A s0 s1 k -> sys_solved Bt s1 s0 -> sys_unique Bt s1 s0 k ->
+  exists x' y', In (x', y') (support_enumeration m n A Bt) /\
+                (forall i, (i < m)%nat -> LinAlg.vget x' i == x i)%Q /\ (forall j, (j < n)%nat -> LinAlg.vget y' j == y j)%Q.
+Proof. exact support_enum_complete. Qed.
+Print Assumptions C05_support_enum_complete.
+
+(* the acceptance test itself is complete: a positive exact solution against which no own action does better is returned *)
+Theorem C05_indiff_complete : forall (P : list (list Q)) (mrows : nat) (own opp : list nat) (z : nat -> Q),
+  let k := length own in
+  sys_solved P own opp -> sys_unique P own opp k -> sys_sol P own opp k z ->
+  (forall t, (t < k)%nat -> 0 < z t)%Q ->
+  (forall i, (i < mrows)%nat -> sumQ k (fun t => LinAlg.get P i (nth t opp 0%nat) * z t) <= z k)%Q ->
+  exists a, indiff_mixed_action P mrows own opp = Some a /\ length a = k /\ forall t, (t < k)%nat -> (nth t a 0 == z t)%Q.
+Proof. exact indiff_complete. Qed.
+Print Assumptions C05_indiff_complete.
+
+(* not proved: a non-degenerate game has only equilibria with equal-size supports and non-singular systems, each
+   yielded exactly once (hence an odd number); decided by the oracle on certified non-degenerate games *)
+Definition nondegenerate_equal_supports_full : Prop := forall (m n : nat) (A Bt : list (list Q)) (x y : nat -> Q) (s0 s1 : list nat),
+  nondegenerate m n (Af A) (Bf Bt) -> is_nash_fn m n (Af A) (Bf Bt) x y ->
+  sinc s0 -> sinc s1 ->
+  (forall i, In i s0 <-> (i < m)%nat /\ (0 < x i)%Q) -> (forall j, In j s1 <-> (j < n)%nat /\ (0 < y j)%Q) ->
+  length s0 = length s1 /\ sys_solved A s0 s1 /\ sys_unique A s0 s1 (length s0) /\
+  sys_solved Bt s1 s0 /\ sys_unique Bt s1 s0 (length s0).
+
+(* the hypotheses hold for the mixed equilibrium of the example game *)
+Example ex_complete_hyps : sinc [0; 1]%nat /\ sys_solved ex_A [0; 1]%nat [0; 1]%nat /\ sys_unique ex_A [0; 1]%nat [0; 1]%nat 2.
+Proof.
+  split; [cbn; auto|]. split; [unfold sys_solved; vm_compute; discriminate|].
+  intros z z' [H1 H2] [H1' H2'] t Ht.
+  pose proof (H1 0%nat (Nat.lt_0_succ 1)) as A0. pose proof (H1 1%nat (Nat.lt_succ_diag_r 1)) as A1.
+  pose proof (H1' 0%nat (Nat.lt_0_succ 1)) as B0. pose proof (H1' 1%nat (Nat.lt_succ_diag_r 1)) as B1.
+  cbn in A0, A1, B0, B1, H2, H2'.
+  destruct t as [|[|[|t]]]; [| | | exfalso; apply (Nat.nle_succ_0 t); now do 2 apply Nat.succ_le_mono]; lra.
+Qed.
+
+(* exactly once: supp m x lists the actions with positive probability; no two pairs yielded by the enumeration have
+   the same pair of supports, and vectors equal entry by entry have equal supports - so an equilibrium found by
+   C05_support_enum_complete occupies exactly one position of the list *)
+From QE Require Import C05.Proofs8.
+Theorem C05_support_enum_once : forall (m n : nat) (A Bt : list (list Q)),
+  NoDup (map (suppair m n) (support_enumeration m n A Bt)) /\
+  (forall x x' : list Q, (forall i, (i < m)%nat -> LinAlg.vget x i == LinAlg.vget x' i)%Q -> supp m x = supp m x').
+Proof. intros m n A Bt. split; [exact (support_enum_once m n A Bt) | exact (supp_ext m)]. Qed.
+Print Assumptions C05_support_enum_once.
+
+(* ================= Lemke-Howson: convergence => Nash (ProofsLH1-3.v; exact instance, tolerance 0) =================
+   Both tableaux stay feasible and their rows keep satisfying the initial equations along the whole path, for every
+   initial pivot, max_iter and capping schedule (shared invariant lemmas of Base/PivotProofs.v; the entering column
+   always has a positive entry because the shifted payoffs are positive, and the lexicographic test always
+   separates ties because the slack block is non-singular).  With the complementarity of the labels
+   (C05_lh_converged_complementary_partial) and C05_complementary_is_nash: when convergence is reported the output
+   is a Nash equilibrium of the original game, or both returned vectors are identically zero (the path came back
+   to the artificial equilibrium; excluded for the code only by the Lemke-Howson path argument, which is not
+   proved).  A, Bt must be m x n and n x m (PivotProofs.wf). *)
+From QE Require Base.PivotProofs C05.ProofsLH3.
+
+Theorem C05_lh_converged_nash : forall (m n : nat) (A Bt : list (list Q)) (init_pivot : nat) (max_iter : Z) (capping : option Z),
+  (0 < m)%nat -> (0 < n)%nat -> PivotProofs.wf m n A -> PivotProofs.wf n m Bt -> (init_pivot < m + n)%nat ->
+  let '(ne, conv, _, _) := lemke_howson (T:=Q) 0%Q 0%Q m n A Bt init_pivot max_iter capping in
+  conv = true ->
+  is_nash_fn m n (Af A) (Bf Bt) (LinAlg.vget (fst ne)) (LinAlg.vget (snd ne)) \/
+  ((forall i, (i < m)%nat -> LinAlg.vget (fst ne) i == 0)%Q /\ (forall j, (j < n)%nat -> LinAlg.vget (snd ne) j == 0)%Q).
+Proof. exact ProofsLH3.lh_converged_nash. Qed.
+Print Assumptions C05_lh_converged_nash.
+
+(* what remains of lh_converged_nash_full: the second alternative never occurs *)
+Definition lh_not_artificial_full : Prop :=
+  forall (m n : nat) (A Bt : list (list Q)) (init_pivot : nat) (max_iter : Z) (capping : option Z),
+  (0 < m)%nat -> (0 < n)%nat -> PivotProofs.wf m n A -> PivotProofs.wf n m Bt -> (init_pivot < m + n)%nat ->
+  let '(ne, conv, _, _) := lemke_howson (T:=Q) 0%Q 0%Q m n A Bt init_pivot max_iter capping in
+  conv = true -> exists i, (i < m)%nat /\ ~ (LinAlg.vget (fst ne) i == 0)%Q.
+
+Example ex_lh_hyps : PivotProofs.wf 2 2 ex_A /\ PivotProofs.wf 2 2 ex_Bt.
+Proof. split; (split; [reflexivity|]; intros [|[|i]] Hi; [reflexivity|reflexivity|exfalso; apply (Nat.nlt_0_r i); now do 2 apply Nat.succ_lt_mono]). Qed.
